@@ -252,7 +252,7 @@ func TestC07(t *testing.T) {
 	s := newSuite(t, "C07",
 		"1..4 concurrent uploads through RoundTrip (buffered / SetBodyStream declared / unknown / empty, 0..300000 bytes, generated reader chunking) to a scripted TLS server that opens with SETTINGS_INITIAL_WINDOW_SIZE from {0,1,100,16383,65535,1MiB} and SETTINGS_MAX_FRAME_SIZE from {default,16384,16385,65536,2^24-1}, then a generated schedule of up to 25 actions {WINDOW_UPDATE(stream), WINDOW_UPDATE(connection), SETTINGS_INITIAL_WINDOW_SIZE up/down, SETTINGS_MAX_FRAME_SIZE up/down}, lock-step with client quiescence (hook counters + caller goroutine states) after each. Oracle: the server's ledgers never go negative on a DATA frame and no DATA frame exceeds the MAX_FRAME_SIZE in force (raised at once, lowered once acknowledged); at quiescence no upload with bytes left has both windows positive; after generous grants every body arrived byte-exact with END_STREAM once and every caller got its 200. Non-trivial = an upload blocked at least once, or a SETTINGS change mid-upload; distinct by case hash.")
 	defer s.finish()
-	runLane(s, Lane[c07Case]{Name: "uploads", Journal: true, Quick: 600, Thor: 100000, Gen: c07Gen, Run: c07Run})
+	runLane(s, Lane[c07Case]{Name: "uploads", Journal: true, Quick: 600, Thor: 60000, Gen: c07Gen, Run: c07Run})
 }
 
 var _ = rawframe.Data
